@@ -174,6 +174,22 @@ def run(chk, replay=None):
 
     impl = lib.harness_run_parallel("distro", cases)
 
+    # ---- status flips: a live node is silent > 15 s (marked by the genuine check_node_status), pings again
+    #      (genuine ActiveNode), the 3 s heartbeat passes again: every node must be back on the original view
+    flip_cases = []
+    for n in range(2, (4 if tier == "quick" else 5) + 1):
+        ids = list(range(1, n + 1))
+        for status in itertools.product([True, False], repeat=n):
+            live_ids = [i for i, s in zip(ids, status) if s]
+            if len(live_ids) < 2:
+                continue
+            nodes = [[i, s] for i, s in zip(ids, status)]
+            for f in live_ids:
+                for local in live_ids:
+                    flip_cases.append({"k": "view", "local": local, "nodes": nodes, "keys": tkeys, "naming": True,
+                                       "flips": [f] if local != f else [], "flip_group": f})
+    impl_flip = lib.harness_run_parallel("distro", flip_cases)
+
     # ---- raw ProcessRange::is_range (degenerate len 0/1, huge values)
     ir_cases = []
     for _ in range(300 if tier == "quick" else 3000):
@@ -275,6 +291,22 @@ def run(chk, replay=None):
             if all(m in g for m, v in view if v):
                 oracle(g, True)
 
+    flip_groups = {}
+    for c, r in zip(flip_cases, impl_flip):
+        if r.get("r") != "ok":
+            chk.violation("distro suite failed on a flip case: %s" % r, {"suite": "distro", "case": dict(c, keys=c["keys"][:2]), "impl": r}, True)
+            continue
+        view = effective_view(c["nodes"], c["local"])
+        got = [[x[0], x[3]] for x in r["nodes"]]
+        if got != [list(x) for x in view]:
+            chk.classify("flip-status", "after node %s was silent and pinged again the node statuses are %s, expected %s"
+                         % (c["flip_group"], got, view), {"suite": "distro", "case": dict(c, keys=[])})
+        flip_groups.setdefault((json.dumps(view), c["flip_group"]), {})[c["local"]] = (c, r)
+    for (vk, f), g in flip_groups.items():
+        view = json.loads(vk)
+        if all(m in g for m, v in view if v):
+            oracle(g, True)
+
     for c, r in zip(ir_cases, impl_ir):
         for h, b in zip(c["hs"], r["out"]):
             n_eval += 1
@@ -290,7 +322,10 @@ def run(chk, replay=None):
         exprs += ["run_is_range %d %d %s" % (c["index"], c["len"], lib.coq_list(c["hs"])) for c in ir_cases]
         thashes = [k["h"] for k in timer_res["after"][0]["keys"]] if timer_res.get("r") == "ok" and tviews else []
         exprs += ["run_view %s %d ths" % (coq_view(effective_view(c["nodes"], c["local"])), c["local"]) for c in tviews]
-        header = HEADER + "Definition hs := %s.\nDefinition ths := %s.\n" % (hs_coq, lib.coq_list(thashes))
+        fhashes = [k["h"] for k in impl_flip[0]["keys"]] if flip_cases and impl_flip[0].get("r") == "ok" else []
+        exprs += ["run_view %s %d fhs" % (coq_view(effective_view(c["nodes"], c["local"])), c["local"]) for c in flip_cases]
+        header = HEADER + "Definition hs := %s.\nDefinition ths := %s.\nDefinition fhs := %s.\n" % (
+            hs_coq, lib.coq_list(thashes), lib.coq_list(fhashes))
         vals = lib.coq_eval_sharded("c14", header, exprs, per=60)
     except RuntimeError as ex:
         chk.violation("model evaluation failed: %s" % str(ex)[:300], {"broken": "model evaluation", "log": str(ex)[-3000:]}, False)
@@ -337,6 +372,11 @@ def run(chk, replay=None):
             for c, r in zip(tviews, timer_res["after"]):
                 compare_view(c, r, vals[i], True)
                 i += 1
+        else:
+            i += len(tviews)
+        for c, r in zip(flip_cases, impl_flip):
+            compare_view(c, r, vals[i], True)
+            i += 1
 
     if not proofs_ok:
         chk.violation("proof obligations of C14 no longer check: %s" % chk.proof_failure[:300],
